@@ -43,6 +43,8 @@ def mk_call(rng, stmt, i, joined):
     k = rng.choice(kinds)
     if k == "select":
         tb = rng.choice(["t"] + joined)
+        if rng.random() < 0.3:
+            return {"kind": k, "src": ".select(T(%r).%s.as_('alf%d'))" % (tb, fid, i), "id": i}
         return {"kind": k, "src": ".select(T(%r).%s)" % (tb, fid), "id": i}
     if k in ("where", "prewhere"):
         tb = rng.choice(T_)
@@ -54,6 +56,12 @@ def mk_call(rng, stmt, i, joined):
         tb = cand[0]
         joined.append(tb)
         return {"kind": k, "src": ".join(T(%r)).on(T('t').k == T(%r).%s)" % (tb, tb, fid), "id": i, "tbl": tb}
+    if k in ("groupby", "orderby") and rng.random() < 0.3:
+        # a column given by name: a string that may coincide with the alias of a selected term (al0..al5) or not
+        if rng.random() < 0.5:
+            return {"kind": k, "src": ".%s(%r)" % (k, fid), "id": i}
+        j = rng.randrange(6)
+        return {"kind": k, "src": ".%s('alf%d')" % (k, j), "id": j}    # the name carries the id the slot comparison reads
     if k == "groupby":
         return {"kind": k, "src": ".groupby(T('t').%s)" % fid, "id": i}
     if k == "having":
